@@ -6,6 +6,7 @@ use crate::out::Out;
 use crate::prng::Rng;
 use crate::props::guarded;
 use crate::stree::{SD, ST};
+use crate::sty::Sty;
 use crate::Args;
 use core::num::*;
 use core::ops::{Range, RangeFrom, RangeInclusive, RangeTo};
@@ -84,11 +85,20 @@ fn conf(v: &NV, s: &ST) -> Result<(), String> {
     }
 }
 
-fn check<T: Schema + Serialize>(o: &mut Out, r: &mut Rng, name: &str, vals: Vec<T>) {
+fn check<T: Schema + Serialize + Sty>(o: &mut Out, r: &mut Rng, name: &str, vals: Vec<T>) {
     let schema: &'static DataModelType = T::SCHEMA;
     let st = ST::from_owned(&OwnedDataModelType::from(schema));
     let ss = st.to_string();
     o.bump("types");
+    // the model's reading of the impl rows gives this type the same SCHEMA
+    let sty = T::sty();
+    match &sty {
+        Some(t) => {
+            o.case("styschema", &[t], &format!("ok {}", ss));
+            o.bump("types_in_expression_language");
+        }
+        None => o.bump("types_outside_expression_language"),
+    }
     o.sample(format!("{} : {}", name, if ss.len() > 150 { format!("{}...", &ss[..150]) } else { ss.clone() }));
     for (i, v) in vals.iter().enumerate() {
         o.eval(&(name, i), true);
@@ -116,6 +126,10 @@ fn check<T: Schema + Serialize>(o: &mut Out, r: &mut Rng, name: &str, vals: Vec<
         let nvs = nv.to_string();
         if nvs.len() < 30000 {
             o.case("conform", &[&ss, &nvs, &hex(&stream)], &format!("1 ok {}", hex(&suffix)));
+            // ... and the captured call tree is what the model says a value of the type emits
+            if let Some(t) = &sty {
+                o.case("styemit", &[t, &nvs], "1");
+            }
         }
         o.bump("values");
     }
